@@ -93,7 +93,7 @@ func c09Cases(tier string, seed uint64) []fw.Case {
 	progs = append(progs, randomProgs(rng, nr, 3, 12)...)
 	for _, p := range progs {
 		g := gen.Lower("p", p.AST)
-		vars := assignments(p.NV, 1, rng)[0]
+		vars := zeroData(assignments(p.NV, 1, rng)[0], p.AST)
 		base := step.Case{G: g, Vars: vars, Lenient: hasOr(g)}
 		orders, _ := step.Orders(&base, 2, rng)
 		for oi, o := range orders {
